@@ -17,9 +17,9 @@ def fit_iroas(spec, history=None, **kw):
   from matched_markets.methodology import tbr_iroas
   m = tbr_iroas.TBRiROAS(use_cooldown=spec['n_cool'] > 0)
   if history is not None:
-    m.fit(tbrfam.build_df(history))
+    m.fit(tbrfam.build_df(history), **tbrfam.fit_kwargs(history))
     m.summary(level=0.9, tails=1, nsims=50, random_state=1)
-  m.fit(tbrfam.build_df(spec, **kw))
+  m.fit(tbrfam.build_df(spec, **kw), **tbrfam.fit_kwargs(spec))
   return m
 
 
